@@ -89,6 +89,13 @@ def gen_cases(tier, seed):
         drive = {"A": S.field_spec(rng, dev, o, "uniform", b=0.7)}  # fast initial relaxation: delta ~ 1e-3, proposals far below dt_max
         cases.append({"device": dev, "options": o, "drive": drive, "monitors": ["adaptive"], "kind": "long_window", "cost": 15})
     for j in range(2 if tier == "quick" else 6):
+        # continuation from a seed solution whose own run ended with large steps; the new run has its own (tighter) bounds
+        dev = zoo.gen_device(rng, n_terminals=int([0, 2][j % 2]), n_holes=0, probes=0, size="small", gamma=float([10.0, 1.0][j % 2]))
+        o = dict(adaptive=True, adaptive_window=int([5, 2][j % 2]), adaptive_time_step_multiplier=0.25, max_solve_retries=10, dt_init=1e-4, dt_max=5e-3, solve_time=0.4,
+                 save_every=10, field_units="mT", current_units="uA", output="file")
+        drive = {"A": S.field_spec(rng, dev, o, "uniform", b=0.2), "currents": S.current_spec(rng, dev, o, "const", strength=0.15)}
+        cases.append({"device": dev, "options": o, "drive": drive, "monitors": ["adaptive"], "kind": "seeded", "cost": 8})
+    for j in range(2 if tier == "quick" else 6):
         # ONE SolverOptions object: first a fixed-step run, then adaptivity is switched on and the same object is used again
         dev = zoo.gen_device(rng, n_terminals=int([0, 2][j % 2]), n_holes=0, probes=0, size="small", gamma=float([10.0, 1.0][j % 2]))
         o = dict(adaptive=True, adaptive_window=int([5, 2][j % 2]), adaptive_time_step_multiplier=0.25, max_solve_retries=10, dt_init=1e-3, dt_max=0.1, solve_time=3.0,
@@ -165,6 +172,15 @@ def run_case(spec):
         opts.adaptive = True
         opts.solve_time = want["solve_time"]
         run_kwargs = dict(device=device, options_obj=opts)
+    if spec["kind"] == "seeded":
+        device, why = zoo.try_build_device(spec["device"])
+        if device is None:
+            return {"violations": [], "counters": {"refused_mesh": 1}, "classes": ["refused"], "nontrivial": False}
+        first = dict(spec, options=dict(spec["options"], dt_init=1e-3, dt_max=0.1, solve_time=3.0))
+        r0 = sim.run_sim(first, [], device=device, keep_dir=True)
+        if r0.refused or r0.exception is not None or r0.solution is None:
+            return {"violations": [], "counters": {"refused_mesh": 1}, "classes": ["refused"], "nontrivial": False}
+        run_kwargs = dict(device=device, seed_solution=r0.solution)
     out = S.run_sim_case(spec, "C12", extra_listeners=[tm], post=post, **run_kwargs)
     if pre_violations and "violations" in out:
         out["violations"] = pre_violations + out["violations"]
